@@ -457,6 +457,9 @@ struct Call {
     fired: bool,
     npolls: u32,     // polls of the call future so far
     migrated: bool,  // executor mode: already polled once without a wake-up
+    /// the caller is busy: the future returned by `call` gets its FIRST poll no earlier than this many ms after the call
+    /// (stalling clients only; the handshake timeout counts from the call all the same)
+    defer_ms: u64,
 }
 
 const GARBAGE: &[u8] = b"GET / HTTP/1.1\r\nHost: localhost\r\nUser-Agent: not-tls\r\n\r\n";
@@ -542,6 +545,11 @@ impl<'a> Run<'a> {
         !self.exec || self.calls[i].npolls == 0 || self.calls[i].flag.0.load(Ordering::SeqCst)
     }
 
+    /// the future of call `i` has not been polled yet and its caller is still busy
+    fn deferred(&self, i: usize) -> bool {
+        self.calls[i].npolls == 0 && self.el_ms(i) < self.calls[i].defer_ms
+    }
+
     fn el_ms(&self, i: usize) -> u64 {
         (tokio::time::Instant::now() - self.calls[i].t0).as_millis() as u64
     }
@@ -623,7 +631,14 @@ impl<'a> Run<'a> {
             "trickle" => Fire::Trickle, // half a hello now, the rest one tick later, then silence
             _ => Fire::Never,
         };
+        // a stalling client, one time in three: the first poll comes 1 .. T-1 ticks after the call
+        let defer_ms = if kind == "stall" && self.t_ticks > 1 && self.rng.below(3) == 0 {
+            (1 + self.rng.below(self.t_ticks as usize - 1) as u64) * self.tick_ms
+        } else {
+            0
+        };
         self.calls.push(Call {
+            defer_ms,
             fut,
             flag: new_flag(true),
             t0: tokio::time::Instant::now(),
@@ -654,7 +669,8 @@ impl<'a> Run<'a> {
         bump(&mut self.stats, &format!("client:{kind}:{flavour}"), 1);
         json!({"ev": "call", "c": self.calls.len(), "kind": kind, "th": th, "res": res,
                "flavour": flavour, "lib": if self.calls.last().unwrap().client.raw.is_some() { "raw" } else { lib },
-               "hello_bytes": n1, "woken": self.wakers.woken_since(&before), "unres": self.calls.len()})
+               "hello_bytes": n1, "woken": self.wakers.woken_since(&before), "unres": self.calls.len(),
+               "defer_ms": defer_ms})
     }
 
     fn fire(&mut self, i: usize) {
@@ -786,8 +802,8 @@ impl<'a> Run<'a> {
         }
         let i = c - 1;
         let el_ms = self.el_ms(i);
-        if !self.runnable(i) {
-            // executor mode: its current waker has not fired, so nobody polls it
+        if !self.runnable(i) || self.deferred(i) {
+            // executor mode: its current waker has not fired, so nobody polls it (or its caller is still busy)
             out.push(json!({"ev": "poll", "c": c, "res": "pending", "polled": false, "el_ms": el_ms, "err": "",
                             "woken": [], "unres": self.calls.len()}));
             return;
@@ -817,6 +833,10 @@ impl<'a> Run<'a> {
     fn sweep(&mut self, early: &mut Vec<Value>, may_migrate: bool) {
         let mut i = 0;
         while i < self.calls.len() {
+            if self.deferred(i) {
+                i += 1;
+                continue;
+            }
             if !self.runnable(i) {
                 // executor mode.  At most once per call: the future moves to another task, which
                 // polls it under its own waker although nothing woke it.
